@@ -268,6 +268,7 @@ CHECKS = {
               "names valid (depth 1..3), odd-valid (backslash, colon, '.') and invalid; OS-path candidates assembled from the root or a look-alike of it (rootx), its parent, other volumes, then 0..4 elements from {a,b,root,x.y,.,..,''} with optional trailing separator. "
               "Oracle: (1) a valid name maps to volume+sep+elements of root and name joined by sep (computed by splitting), an invalid one to ErrInvalid; (2) FromOSPath(ToOSPath(n)) == n; (3) for an absolute candidate FromOSPath fails with ErrInvalid or returns a valid FS path r with "
               "ToOSPath(r) equal to the lexically cleaned candidate, which lies inside the root (a small Windows volume parser in the harness plays filepath.VolumeName). live leg: the exported ToOSPath/FromOSPath on this host: relative paths refused, same reverse/round-trip oracle. "
+              "liveops leg: two identical scratch directories (whose own names hold ':', '\\' and a space), below them a chain of 0..2 directories drawn from unusual valid names; in one 1..7 operations (mkdir, mkdirall, writefile, symlink, rename, remove, chmod, chtimes; names of depth 1..3 from a per-case alphabet) go through an os.FS built by 1..3 Sub calls, in the other through the raw os package at filepath.Join(root, name); success and, via Lstat/Readlink, both trees (a link's target relative to its own root) and what reading each entry returns are compared after every step; non-trivial there = at least two operations. "
               "thorough adds native fuzzing over (convention, sub, volume, name, candidate). non-trivial = an unclean candidate (.., empty element, trailing separator) or a valid name under >=1 Sub root"),
         assumptions=["the relative-path guard lives in the exported wrapper (filepath.IsAbs of the host), so relative candidates are only checked in the live leg", "errors coming back from the OS naming the caller's path are covered by C05's os.FS subjects under 1-3 Sub roots"],
         legs=[
